@@ -58,7 +58,7 @@ func (c *Client) handleStatus() error {
 	cmd := c.findPendingCmdFunc(func(cmd command) bool {
 		switch cmd := cmd.(type) {
 		case *StatusCommand:
-			return cmd.mailbox == data.Mailbox
+			return sameMailbox(cmd.mailbox, data.Mailbox)
 		case *ListCommand:
 			return cmd.returnStatus && cmd.pendingData != nil && cmd.pendingData.Mailbox == data.Mailbox
 		default:
